@@ -579,6 +579,12 @@ pub unsafe fn rec_clone(src: *const u8, dst: *mut u8, count: usize) {
     let d = if bytes == 0 { None } else { off(dst as *const u8) };
     if let Some(d) = d {
         kani::assert(in_current_region(d, bytes), "C05: clones are written inside the current target storage");
+        let kd = vec_of(d);
+        if kd < NV && !gh.v[kd].len_ptr.is_null() {
+            let ld = cur_len(kd);
+            kani::assert(ld <= gh.v[kd].cap && d >= gh.v[kd].base + ld * esz,
+                "C06: a clone is written only into a slot that is not visible (a panicking Clone leaves nothing uninitialised in sight)");
+        }
         kani::assert(bytes == 0 || s + bytes <= d || d + bytes <= s, "clone target does not overlap its source");
         tokens_kill(d, bytes);
         written(d, bytes);
@@ -634,6 +640,15 @@ pub struct GhostHandle {
     pub k: usize,
 }
 
+/// A `GhostMem` only ever lives in the `mem` field of an `AnyVecRaw<GhostB>`: the address of that vector's
+/// `len` field (also for vectors under construction inside the library, e.g. the target of `clone`).
+fn container_len_ptr(m: &GhostMem) -> *const usize {
+    use crate::any_vec_raw::AnyVecRaw;
+    let off_mem = core::mem::offset_of!(AnyVecRaw<GhostB>, mem);
+    let off_len = core::mem::offset_of!(AnyVecRaw<GhostB>, len);
+    unsafe { (m as *const GhostMem as *const u8).sub(off_mem).add(off_len) as *const usize }
+}
+
 impl MemBuilder for GhostB {
     type Mem = GhostMem;
     fn build(&mut self, element_layout: Layout) -> GhostMem {
@@ -663,10 +678,12 @@ impl MemBuilderSizeable for GhostB {
 impl Mem for GhostMem {
     fn as_ptr(&self) -> *const u8 {
         kani::assert(g().v[self.k].live, "C05: storage pointer requested after release");
+        g().v[self.k].len_ptr = container_len_ptr(self);
         arena_ptr(g().v[self.k].base) as *const u8
     }
     fn as_mut_ptr(&mut self) -> *mut u8 {
         kani::assert(g().v[self.k].live, "C05: storage pointer requested after release");
+        g().v[self.k].len_ptr = container_len_ptr(self);
         arena_ptr(g().v[self.k].base)
     }
     fn element_layout(&self) -> Layout {
